@@ -29,6 +29,7 @@ import (
 	"strconv"
 	"strings"
 	"sync"
+	"sync/atomic"
 	"time"
 
 	rlog "github.com/smallnest/rpcx/log"
@@ -303,7 +304,7 @@ func newSdRig(pool bool, reqs []sdReq) *sdRig {
 	}
 	r.srv.Plugins.Add(&sdPlugin{rig: r})
 	// a registry plugin whose Unregister fails (the registry is unreachable at shutdown): draining goes on all the same
-	r.srv.Plugins.Add(sdRegistryDown{})
+	r.srv.Plugins.Add(&sdRegistry{down: atomic.AddInt64(&sdRigCount, 1)%2 == 0})
 	r.srv.AuthFunc = func(ctx context.Context, req *protocol.Message, token string) error {
 		r.mu.Lock()
 		q := r.reqs[int(req.Seq())]
@@ -329,11 +330,17 @@ func newSdRig(pool bool, reqs []sdReq) *sdRig {
 	return r
 }
 
-type sdRegistryDown struct{}
+// a registry plugin; in every other rig the registry is unreachable when the server shuts down
+type sdRegistry struct{ down bool }
 
-func (sdRegistryDown) Register(name string, rcvr interface{}, metadata string) error { return nil }
-func (sdRegistryDown) Unregister(name string) error {
-	return errors.New("registry unreachable: cannot unregister " + name)
+var sdRigCount int64
+
+func (p *sdRegistry) Register(name string, rcvr interface{}, metadata string) error { return nil }
+func (p *sdRegistry) Unregister(name string) error {
+	if p.down {
+		return errors.New("registry unreachable: cannot unregister " + name)
+	}
+	return nil
 }
 
 func (r *sdRig) waitPre(c int, atLeast int, d time.Duration) bool {
@@ -569,13 +576,27 @@ func sdRunCase(o *common.Out, id string, c sdCase) {
 	var snaps []string
 	var fails []string
 
+	// a request of kind n (an ordinary call of the registered service) that is run to completion is answered with its
+	// result - "running to completion" is not an error frame saying the service has gone
+	wrongAnswer := map[int]string{}
+	note := func(f *refcodec.Frame) {
+		rid := int(binary.BigEndian.Uint64(f.Header[4:12]))
+		got[rid] = true
+		if q, ok := byID[rid]; ok && q.kind == "n" && f.Header[2]&0x03 == 1 {
+			for _, kv := range f.Meta {
+				if string(kv.K) == protocol.ServiceError {
+					wrongAnswer[rid] = string(kv.V)
+				}
+			}
+		}
+	}
 	drain := func() {
 		for ci, p := range peers {
 			_ = ci
 			for {
 				select {
 				case f := <-p.frames:
-					got[int(binary.BigEndian.Uint64(f.Header[4:12]))] = true
+					note(f)
 					continue
 				default:
 				}
@@ -592,7 +613,7 @@ func sdRunCase(o *common.Out, id string, c sdCase) {
 		for !got[r] {
 			select {
 			case f := <-p.frames:
-				got[int(binary.BigEndian.Uint64(f.Header[4:12]))] = true
+				note(f)
 			case <-p.closed:
 				drain()
 				return
@@ -958,6 +979,9 @@ func sdRunCase(o *common.Out, id string, c sdCase) {
 			fmt.Println("  slow action", a.String(), time.Since(ta))
 		}
 	}
+	for rid, text := range wrongAnswer {
+		fails = append(fails, fmt.Sprintf("read-not-drained: request %d, an ordinary call that the server had read, was not run: it was answered with the error %q", rid, text))
+	}
 	// final observations
 	rig.mu.Lock()
 	started := append([]int(nil), rig.started...)
@@ -1157,7 +1181,9 @@ func genSdCase(r *common.Rand, pool bool) sdCase {
 
 func runShutdown(r *common.Rand, tier string, o *common.Out, replay string) {
 	if replay != "" {
+		// once with a reachable registry, once with an unreachable one (the rigs alternate)
 		sdRunCase(o, "replay", decSdCase(replay))
+		sdRunCase(o, "replay-registry-down", decSdCase(replay))
 		return
 	}
 	n := 0
